@@ -120,6 +120,7 @@ def run_check(pid, tier, seed, only=None, keep=False):
     inj = None
     verus_report = None
     scratch = None
+    scratch_dirs = []
     try:
         # ---------------- Route V
         if verus_sel:
@@ -136,19 +137,29 @@ def run_check(pid, tier, seed, only=None, keep=False):
             functions += verus_report.get("functions", [])
         # ---------------- Route K
         if kani_sel:
-            scratch, srepo = vlib.make_scratch("k")
-            inj = vlib.inject_kani(srepo)
-            functions += inj["functions"]
             groups = {}
             for h in kani_sel:
-                groups.setdefault((h["pkg"], bool(h.get("tests"))), []).append(h)
-            for (pkg, tests), hs in groups.items():
+                key = (h["pkg"], bool(h.get("tests")), tuple(h.get("flags") or ()), tuple(h.get("omit_contracts") or ()))
+                groups.setdefault(key, []).append(h)
+            scratches = {}
+            for (pkg, tests, flags, omit), hs in groups.items():
+                if omit not in scratches:
+                    sc, sr = vlib.make_scratch("k")
+                    scratch_dirs.append(sc)
+                    scratches[omit] = (sr, vlib.inject_kani(sr, omit_contracts=omit))
+                srepo, inj_g = scratches[omit]
+                if inj is None or not omit:
+                    inj = inj_g
+                for f in inj_g["functions"]:
+                    if f not in functions:
+                        functions.append(f)
                 to = max(int(h.get("timeout", 300)) for h in hs)
                 if tier == "thorough":
                     to *= 3
                 out = vlib.run_kani(srepo, pkg, [h["harness"] for h in hs], timeout_s=to, jobs=14, tests=tests,
-                                    extra=["--no-assert-contracts"])
+                                    extra=["--no-assert-contracts"] + list(flags))
                 for h in hs:
+                    h["_srepo"] = srepo
                     res = out["results"].get(h["harness"])
                     verdict, detail = classify_kani(h, res)
                     rec = {
@@ -184,19 +195,21 @@ def run_check(pid, tier, seed, only=None, keep=False):
             # ------------ failures -> counterexample -> native replay
             for rec in [r for r in violations if r["engine"] == "kani"]:
                 h = next(x for x in kani_sel if x["id"] == rec["id"])
-                confirm_kani_failure(pid, srepo, h, rec)
+                confirm_kani_failure(pid, h["_srepo"], h, rec)
     except Undecided as e:
         log("UNDECIDED: %s" % e)
         write_evidence(ev, pid, tier, seed, per, functions, inj, verus_report, pinfo, t0, [], [{"id": "engine", "detail": str(e)}], known_lines)
-        if scratch and not keep:
-            vlib.remove_scratch(scratch)
+        if not keep:
+            for sc in scratch_dirs:
+                vlib.remove_scratch(sc)
         return 2
     finally:
         pass
-    if scratch and not keep:
-        vlib.remove_scratch(scratch)
-    elif scratch:
-        log("scratch kept at %s" % scratch)
+    if not keep:
+        for sc in scratch_dirs:
+            vlib.remove_scratch(sc)
+    else:
+        log("scratch kept at %s" % scratch_dirs)
 
     write_evidence(ev, pid, tier, seed, per, functions, inj, verus_report, pinfo, t0, violations, undecided + vacuous, known_lines)
     for l in known_lines:
